@@ -50,6 +50,8 @@ DEFAULT_PROFILE = dict(
     p_big_reduction=0.15,
     market_types=["WIN", "WIN", "WIN", "PLACE", "OTHER_PLACE", "EACH_WAY"],
     p_txlimit=0.0,
+    p_explimits=0.0,
+    discipline=False,
     center=(60, 140),
 )
 
@@ -119,7 +121,7 @@ class Gen:
         # other runners' factors; includes None, 0, values just below / at / above 2.5 and up to ~97
         special = rnd.choice([None, 0.0, 1.2, 2.4, 2.5, 2.6, 10.0, 16.2, 45.5, 97.0, None, 2.5])
         rest = 100.0 - (special or 0.0)
-        others = [_r2(rest / max(1, len(runners) - 1))] * (len(runners) - 1)
+        others = [min(90.0, _r2(rest / max(1, len(runners) - 1)))] * (len(runners) - 1)   # a factor of 100 does not occur
         afs = [special] + others
         rnd.shuffle(afs)
         rstat = {str(r): ["ACTIVE", afs[i], None] for i, r in enumerate(runners)}
@@ -332,6 +334,13 @@ class Gen:
                 s["multi_order_trades"] = self.chance(0.5)
             else:
                 s["multi_order_trades"] = self.chance(0.3)
+            if self.chance(p["p_explimits"]):
+                s["max_order_exposure"] = rnd.choice([None, 2.0, 5.0, 10.0, 30.0])
+                s["max_selection_exposure"] = rnd.choice([None, 5.0, 10.0, 20.0, 8.5])
+                s["max_market_exposure"] = rnd.choice([None, None, 10.0, 30.0])
+            if p["discipline"]:   # acknowledgement discipline: one live single-order trade per runner
+                s["max_live_trade_count"] = 1
+                s["multi_order_trades"] = False
             strategies.append(s)
         cfg = {
             "isolation": not self.chance(p["p_iso_off"]),
